@@ -8,6 +8,23 @@ From JV Require Import Lib.Base Lib.C15Val Model.C15Links Model.C15Tree Spec.C15
 Definition all_ints (l : list val) : option (list Z) := mapM (fun v => match v with VInt z => Some z | _ => None end) l.
 Definition all_lists (l : list val) : option (list (list val)) := mapM (fun v => match v with VList x => Some x | _ => None end) l.
 
+(* kind of its arguments = "-".join(type(x).__name__ for x in args): tells 1 from True although 1 == True and hash(1) == hash(True).
+   Python booleans are encoded as the reserved strings "<true>" / "<false>" (no generated word looks like that). *)
+Definition kind_of (v : val) : str :=
+  match v with
+  | VNone => [78;111;110;101;84;121;112;101]%N                       (* NoneType *)
+  | VInt _ => [105;110;116]%N                                        (* int *)
+  | VStr s => if is_boolenc s then [98;111;111;108]%N else [115;116;114]%N   (* bool / str *)
+  | VList _ => [108;105;115;116]%N                                   (* list *)
+  | VMap _ => [78;97;109;101;115;112;97;99;101]%N                    (* Namespace *)
+  end.
+Fixpoint kind_join (l : list str) : str :=
+  match l with
+  | [] => []
+  | [x] => x
+  | x :: l' => x ++ [45%N] ++ kind_join l'
+  end.
+
 Definition fn_interp (f : nat) (args : list val) : option val :=
   match f with
   | 0 => option_map (fun zs => VInt (fold_left Z.add zs 0%Z)) (all_ints args)                (* add *)
@@ -22,6 +39,7 @@ Definition fn_interp (f : nat) (args : list val) : option val :=
          end
   | 7 => match args with [VInt z] => Some (VInt (z + 1)) | _ => None end                     (* inc *)
   | 8 => match args with [VInt z] => Some (VList [VInt z; VInt z]) | _ => None end           (* pair *)
+  | 9 => Some (VStr (kind_join (map kind_of args)))                                          (* kind: type-sensitive *)
   | _ => None
   end.
 
@@ -54,6 +72,10 @@ Record case := {
   o_pre : option val;
   o_parse : pres;
   o_dump : option val;
+  c_input2 : option input;   (* a SECOND input parsed on the same parser object, after the first parse, after the lists
+                                the first parse put at link targets were edited in place, after dump / re-parse / save *)
+  o_pre2 : option val;
+  o_parse2 : option pres;
   o_save : option val;       (* save(multifile=True): the main file with every nested file it refers to put back in place *)
   o_reparse : option pres }.
 
@@ -120,8 +142,21 @@ Definition judge_flat (c : case) : verdict :=
                    | POk _, None => false
                    | _, _ => true
                    end in
+  (* the parser is a function of (declarations, links, input): what was parsed before on the same object is irrelevant *)
+  let m_second := match c_input2 c, o_parse2 c with
+                  | Some x2, Some r =>
+                      res_agrees (if c_full c then parse fn_interp (c_classes c) p x2
+                                  else parse_from fn_interp (c_classes c) p x2 (o_pre2 c)) r
+                  | Some _, None => false
+                  | None, _ => true
+                  end in
+  let s_second := match o_parse2 c with
+                  | Some (POk c2) => invariant fn_interp ckeys sl c2
+                  | Some PCrash => false
+                  | _ => true
+                  end in
   let s_core :=
-    not_required sl (o_required c)
+    s_second && not_required sl (o_required c)
     && match o_parse c with
        | POk cfg =>
            negb (uses_target_option ckeys sl (options_of x))
@@ -142,7 +177,7 @@ Definition judge_flat (c : case) : verdict :=
     | _, _, _ => true
     end in
   if N.eqb (c_aspect c) 0
-  then {| v_model := m_build && m_parse && m_pre && m_dump && m_save && m_reparse;
+  then {| v_model := m_build && m_parse && m_pre && m_dump && m_save && m_reparse && m_second;
           v_class := if negb (overlap_free accepted) then 1
                      else match o_parse c with
                           | POk cfg => if skipped_target_present (p_links p) cfg then 3 else 0
